@@ -17,13 +17,48 @@ package manager
 //@   requires mgr.usedIndexes != nil
 //@   modifies mgr.usedIndexes
 //@   ensures seq_eq(result, indexes) && mgr.usedIndexes != nil
+//@   ensures others@C13: forallkey(r, mgr.usedIndexes, implies(forall(k, 0, len(indexes), indexes[k] != r), \
+//@       haskey(mgr.usedIndexes, r) == old(haskey(mgr.usedIndexes, r)) && mgr.usedIndexes[r] == old(mgr.usedIndexes[r])))
+//@   ensures held@C13: forall(k, 0, len(indexes), haskey(mgr.usedIndexes, indexes[k]))
+//@   ensures plusone@C13: implies(forall(a, 0, len(indexes), forall(b, a+1, len(indexes), indexes[a] != indexes[b])) && \
+//@       forall(k, 0, len(indexes), 0 <= old(mgr.usedIndexes[indexes[k]]) && old(mgr.usedIndexes[indexes[k]]) < 18446744073709551615), \
+//@       forall(k, 0, len(indexes), mgr.usedIndexes[indexes[k]] == ite(old(haskey(mgr.usedIndexes, indexes[k])), old(mgr.usedIndexes[indexes[k]]), 0) + 1))
 //@   loop 1 invariant mgr.usedIndexes != nil
+//@   loop 1 invariant others@C13: forallkey(r, mgr.usedIndexes, implies(forall(k, 0, rangeindex+1, indexes[k] != r), \
+//@       haskey(mgr.usedIndexes, r) == old(haskey(mgr.usedIndexes, r)) && mgr.usedIndexes[r] == old(mgr.usedIndexes[r])))
+//@   loop 1 invariant held@C13: forall(k, 0, rangeindex+1, haskey(mgr.usedIndexes, indexes[k]))
+//@   loop 1 invariant plusone@C13: implies(forall(a, 0, len(indexes), forall(b, a+1, len(indexes), indexes[a] != indexes[b])) && \
+//@       forall(k, 0, len(indexes), 0 <= old(mgr.usedIndexes[indexes[k]]) && old(mgr.usedIndexes[indexes[k]]) < 18446744073709551615), \
+//@       forall(k, 0, rangeindex+1, mgr.usedIndexes[indexes[k]] == ite(old(haskey(mgr.usedIndexes, indexes[k])), old(mgr.usedIndexes[indexes[k]]), 0) + 1))
 
+// release: a file is closed and removed only after its last holder let go (its counter reached zero and the
+// entry left the table); nothing else in the table changes; every holder named once gives up exactly one use
+//@ log (*github.com/spq/pkappa2/internal/index.Reader).Close
+//@ log os.Remove
+//@ log (*indexReleaser).release
+//@ log (*Manager).lock
+//@ log (*Manager).getIndexesCopy
 //@ func (*indexReleaser).release
 //@   requires mgr.usedIndexes != nil
 //@   modifies mgr.usedIndexes
 //@   ensures mgr.usedIndexes != nil
+//@   ensures others@C13: forallkey(x, mgr.usedIndexes, implies(forall(k, 0, len(*r), (*r)[k] != x), \
+//@       haskey(mgr.usedIndexes, x) == old(haskey(mgr.usedIndexes, x)) && mgr.usedIndexes[x] == old(mgr.usedIndexes[x])))
+//@   ensures minusone@C13: implies(forall(a, 0, len(*r), forall(b, a+1, len(*r), (*r)[a] != (*r)[b])) && \
+//@       forall(k, 0, len(*r), old(haskey(mgr.usedIndexes, (*r)[k])) && 1 <= old(mgr.usedIndexes[(*r)[k]]) && old(mgr.usedIndexes[(*r)[k]]) <= 18446744073709551615), \
+//@       forall(k, 0, len(*r), haskey(mgr.usedIndexes, (*r)[k]) == (old(mgr.usedIndexes[(*r)[k]]) >= 2) && \
+//@           implies(old(mgr.usedIndexes[(*r)[k]]) >= 2, mgr.usedIndexes[(*r)[k]] == old(mgr.usedIndexes[(*r)[k]]) - 1)))
+//@   ensures removed@C13: ncalls("os.Remove") == ncalls("(*github.com/spq/pkappa2/internal/index.Reader).Close")
+//@   assert before call (*github.com/spq/pkappa2/internal/index.Reader).Close#1: closed_unused@C13: !haskey(mgr.usedIndexes, i)
+//@   assert before call os.Remove#1: removed_unused@C13: !haskey(mgr.usedIndexes, i)
 //@   loop 1 invariant mgr.usedIndexes != nil
+//@   loop 1 invariant others@C13: forallkey(x, mgr.usedIndexes, implies(forall(k, 0, rangeindex+1, (*r)[k] != x), \
+//@       haskey(mgr.usedIndexes, x) == old(haskey(mgr.usedIndexes, x)) && mgr.usedIndexes[x] == old(mgr.usedIndexes[x])))
+//@   loop 1 invariant minusone@C13: implies(forall(a, 0, len(*r), forall(b, a+1, len(*r), (*r)[a] != (*r)[b])) && \
+//@       forall(k, 0, len(*r), old(haskey(mgr.usedIndexes, (*r)[k])) && 1 <= old(mgr.usedIndexes[(*r)[k]]) && old(mgr.usedIndexes[(*r)[k]]) <= 18446744073709551615), \
+//@       forall(k, 0, rangeindex+1, haskey(mgr.usedIndexes, (*r)[k]) == (old(mgr.usedIndexes[(*r)[k]]) >= 2) && \
+//@           implies(old(mgr.usedIndexes[(*r)[k]]) >= 2, mgr.usedIndexes[(*r)[k]] == old(mgr.usedIndexes[(*r)[k]]) - 1)))
+//@   loop 1 invariant removed@C13: ncalls("os.Remove") == ncalls("(*github.com/spq/pkappa2/internal/index.Reader).Close")
 
 // Replacement of a merged run inside the index list (completion of a merge job, executed by the
 // service goroutine): the list becomes old[:offset] ++ merged ++ old[offset+len(indexes):] - everything
@@ -45,6 +80,58 @@ package manager
 //@       forall(k, 0, len(mergedIndexes), mgr.indexes[offset+k] == mergedIndexes[k]) && \
 //@       forall(k, offset+len(indexes), old(len(mgr.indexes)), mgr.indexes[k-len(indexes)+len(mergedIndexes)] == old(mgr.indexes[k])))
 //@   assert before call (*Manager).startMergeJobIfNeeded#1: failed: implies(len(mergedIndexes) == 0 || !isnil(err), same_slice(mgr.indexes, old(mgr.indexes)))
+//@   assert before call (*indexReleaser).release#2: run@C13: len(*arg0) == len(indexes) && forall(k, 0, len(indexes), (*arg0)[k] == old(mgr.indexes[offset+k]))
+//@   assert before call (*Manager).lock#1: merged@C13: same_slice(arg1, mergedIndexes)
+//@   assert before call (*indexReleaser).release#1: own@C13: same_slice(*arg0, releaser)
+//@   ensures pairing@C13: implies(len(mergedIndexes) != 0 && isnil(err), ncalls("(*indexReleaser).release") == 2 && ncalls("(*Manager).lock") == 1)
+//@   ensures pairing_failed@C13: implies(len(mergedIndexes) == 0 || !isnil(err), ncalls("(*indexReleaser).release") == 1 && ncalls("(*Manager).lock") == 0)
+
+// ---------------------------------------------------------------------------
+// C13: every holder of index files (the service list, a view, a background job) takes its references with
+// lock/getIndexesCopy and gives each of them back exactly once, on every path of the completion closures
+// the service goroutine runs. (That the closure is eventually posted for every started job is a matter of
+// schedules and is not decided here.)
+// ---------------------------------------------------------------------------
+//@ func (*Manager).getIndexesCopy
+//@   prop C13
+//@   requires mgr.usedIndexes != nil && 0 <= start && start <= len(mgr.indexes)
+//@   modifies mgr.usedIndexes
+//@   ensures snapshot: len(result0) == len(mgr.indexes) - start && forall(k, 0, len(result0), result0[k] == mgr.indexes[start+k])
+//@   ensures handle: seq_eq(result1, result0)
+//@   ensures held: forall(k, 0, len(result0), haskey(mgr.usedIndexes, result0[k]))
+//@   ensures once: ncalls("(*Manager).lock") == 1
+
+//@ func (*Manager).importPcapJob$1
+//@   prop C13
+//@   nosafety
+//@   noframe
+//@   requires mgr.usedIndexes != nil
+//@   assert before call (*indexReleaser).release#1: own: same_slice(*arg0, existingIndexesReleaser)
+//@   assert before call (*Manager).lock#1: created: same_slice(arg1, createdIndexes)
+//@   ensures pairing: ncalls("(*indexReleaser).release") == 1 && ncalls("(*Manager).lock") == ite(len(createdIndexes) > 0, 1, 0)
+//@   ensures next_job: ncalls("(*Manager).getIndexesCopy") <= 1
+
+//@ func (*Manager).convertStreamJob$4
+//@   prop C13
+//@   nosafety
+//@   noframe
+//@   requires mgr.usedIndexes != nil
+//@   assert before call (*indexReleaser).release#1: own: same_slice(*arg0, releaser)
+//@   ensures pairing: ncalls("(*indexReleaser).release") == 1 && ncalls("(*Manager).lock") == 0
+
+//@ func (*View).Release$1
+//@   prop C13
+//@   nosafety
+//@   noframe
+//@   assert before call (*indexReleaser).release#1: own: same_slice(*arg0, v.releaser)
+//@   ensures pairing: ncalls("(*indexReleaser).release") == 1 && ncalls("(*Manager).lock") == 0
+
+//@ func (*View).fetch$1
+//@   prop C13
+//@   nosafety
+//@   noframe
+//@   ensures pairing: ncalls("(*Manager).getIndexesCopy") == 1 && ncalls("(*indexReleaser).release") == 0
+//@   ensures kept: seq_eq(v.releaser, v.indexes)
 
 // ---------------------------------------------------------------------------
 // Newest-version-wins enumeration of a view.
@@ -269,6 +356,8 @@ package manager
 //@   ensures reapply: implies(ncalls("(*Manager).invalidateTags") == 0 && old(haskey(mgr.tags, name)) && old(mgr.tags[name].definition) == t.definition, \
 //@       old(iszero(mgr.updatedStreamsDuringTaggingJob.mask) && iszero(mgr.resetStreamsDuringTaggingJob.mask) && iszero(mgr.addedStreamsDuringTaggingJob.mask)))
 //@   ensures job_done: !mgr.taggingJobRunning || ncalls("(*Manager).invalidateTags") >= 0
+//@   assert before call (*indexReleaser).release#1: own@C13: same_slice(*arg0, releaser)
+//@   ensures pairing@C13: ncalls("(*indexReleaser).release") == 1 && ncalls("(*Manager).lock") == 0
 
 // Invalidation on import, per tag (rule at the point where the updated tag object is stored):
 // sub-query features => every stream becomes uncertain; otherwise the uncertain set keeps what it had
